@@ -1069,3 +1069,6 @@ func VarsOf(ts ...*Term) []*Term {
 	sort.Slice(out, func(i, j int) bool { return out[i].Name < out[j].Name })
 	return out
 }
+
+// URange returns a sound unsigned interval [lo, hi] for a bit-vector term of width <= 64.
+func URange(t *Term) (uint64, uint64) { return urange(t) }
